@@ -1155,6 +1155,15 @@ func (env *Env) callExpr(x *ast.CallExpr) EVal {
 			out[i] = f.App(fmt.Sprintf("m_%s_%d", name, i), l.S, v.V[1], v.V[2])
 		}
 		return EVal{V: out, T: rt}
+	case "tfield":
+		// tfield(t, "Year"|"Month"|"Day"|"Hour"|"Minute"|"Second"): calendar field of a time.Time value (as the code's t.Year() ...)
+		argN(2)
+		v := env.eval(x.Args[0])
+		lit, ok := x.Args[1].(*ast.BasicLit)
+		if !ok {
+			env.fail("tfield needs a field name")
+		}
+		return EVal{V: Val{env.tr.timeField(strings.Trim(lit.Value, "\""), v.V)}, T: types.Typ[types.Int]}
 	case "consumed":
 		// consumed(r): total number of bytes r.Read has returned so far (ghost counter of an io.Reader)
 		argN(1)
